@@ -598,6 +598,10 @@ namespace bluetoe {
                     return;
                 }
             }
+
+            // no indication was sent, so there will be no confirmation to wait for
+            if ( pending.first == details::notification_queue_entry_type::indication )
+                connection.indication_confirmed();
         }
 
         out_size = 0;
